@@ -16,7 +16,7 @@ using namespace hllm;
 
 const char* property_id() { return "C03"; }
 unsigned case_timeout_s() { return 1500; }
-uint64_t num_cases(bool thorough) { return thorough ? 9000 : 640; }
+uint64_t num_cases(bool thorough) { return thorough ? 9000 : 448; }
 void final_report() {}
 
 // ---------------------------------------------------------------- inputs with rare, high coupon values
@@ -272,7 +272,7 @@ void run_case(uint64_t idx, Rng& r) {
   else if (regime < 65) n = k / 2 + r.below(8 * k);
   else {
     uint64_t cap;
-    if (!T) cap = lg_k <= 10 ? 300000 : 100000;
+    if (!T) cap = lg_k <= 7 ? 300000 : (lg_k <= 10 ? 150000 : 60000);
     else {
       cap = lg_k <= 10 ? 3000000 : 1000000;
       if (r.chance(0.03)) { cap = lg_k <= 10 ? 30000000 : 4000000; mega = true; }
